@@ -27,6 +27,16 @@ CLAIMED = {
     text='Decides for every reachable combination of enum variants (not for sampled frames): the value is serialisable (nothing reached through #[serde(flatten)] or an internally tagged newtype variant uses an entry point FlatMapSerializer / TaggedSerializer rejects), the root is one object, no key is emitted twice, the df tag of DF 0,4,5,11,16,17,18,20,21 is the variant\'s deku id, icao24 exists and is fed by the address/parity field resp. the announced address read at bit 8, both written with one lower-hex template; TimedMessage always writes frame through hex::encode; no pretty writer is used.',
     note='Static rule check. serde 1.0.219 semantics transcribed in checker/shapes.py (version asserted from Cargo.lock). Non-finite numbers: serde_json writes null (library fact); "decoding the hex again gives the same fields" is determinism of decoding (C01-O4). One line: serde_json::to_string never emits a newline (library fact).',
     ref='DESIGN.md §7 C07'),
+ 'C11': dict(level='other', engine='absint+shapes',
+    technique='abstract execution of the per-DF match arms compared with the serde shapes (field provenance of icao24, constant df tag); summaries of the two predicates and a case analysis of every return state',
+    text='Decides for every record and every filter configuration: in each arm of Filters::is_in for DF 0,4,5,11,16,17,18,20,21 the reference handed to aircraft_in is the very field serialised under icao24 and the label handed to df_in is the serialised df tag; aircraft_in and df_in return (absent or contains or empty); is_in returns df_in only on paths where aircraft_in holds, false otherwise and false for an undecoded record.',
+    note='Static rule check. Vec::contains / is_empty are treated as pure predicates of the filter list; equality of ICAO values is the derived PartialEq. DF19 / DF24+ (no aircraft address) are outside the property.',
+    ref='DESIGN.md §7 C11'),
+ 'C12': dict(level='other', engine='absint+shapes+dataflow',
+    technique='abstract execution of snapshot::icao24 against the serde shapes; resolved-callee and taint dataflow rules over the MIR of the async bodies; path queries; frozen who-touches table of the shared map',
+    text='Decides: the table key is to_string() of the field shown as icao24 for each address format (and no key otherwise), written with the same template as the JSON; update_snapshot / store_history reach the table only through entry(key).or_insert(StateVectors::new(ts, key, db)) with key = icao24(message); no value written through the entry derives from another part of the table (taint dataflow); count += 1 and lastseen := timestamp happen exactly once on every path after the entry call, firstseen only in new; every other use of Jet1090.state_vectors, every writer of a Snapshot field and every mutator of a history is in the reviewed table. Together these give the interleaving clause (an entry is a function of the records carrying its key).',
+    note='Static rule check. The taint dataflow is flow- and field-insensitive over locals (over-approximates flows between locals; flows through aliased heap cells other than the entry are not tracked). BTreeMap::entry(k) only exposes the value under k (library fact). spec/mutators.json is a frozen, reviewed table: a new direct use of the map is reported until reviewed.',
+    ref='DESIGN.md §7 C12'),
  'C13': dict(level='other', engine='absint+terms',
     technique='guarded-operation tables extracted from branch facts of the abstract interpreter; per-input-class normal forms (affine over a bit-provenance map) compared with the standard; lossy-cast obligations',
     text='Decides for every code, by classes rather than samples: decode_id13 is the Annex 10 bit permutation with result bits within 0x7777; gray2alt decodes the 500-ft counter with the reflected-Gray prefix masks and, for each of the 8 classes of the C bits and each parity of the 500-ft counter, returns 5*F + d - 13 with the standard 100-ft digit (illegal C bits only give Err, results are non-negative); AC13Field::read and decode_ac12 return 25*N - 1000 with N the code minus Q (and M) exactly for N >= 41, feed decode_id13 with the code (M re-inserted for the 12-bit field), and contain no value-changing integer cast.',
